@@ -191,7 +191,14 @@ func rangeStr(r *[2]int16) string {
 
 func serve(conn net.Conn, c caseSpec, lg *connLog) {
 	defer close(lg.done)
-	defer func() { lg.mu.Lock(); lg.closed = true; lg.mu.Unlock() }()
+	idleExit := false // the broker gave up on a silent client: says nothing about the client having closed
+	defer func() {
+		if !idleExit {
+			lg.mu.Lock()
+			lg.closed = true
+			lg.mu.Unlock()
+		}
+	}()
 	defer conn.Close()
 	srv := newRefServer(c)
 	raw, authDone := false, false
@@ -280,6 +287,7 @@ func serve(conn net.Conn, c caseSpec, lg *connLog) {
 			var ne net.Error
 			if errors.As(err, &ne) && ne.Timeout() {
 				lg.addEnv("EOF")
+				idleExit = true
 			}
 			return
 		}
@@ -440,9 +448,10 @@ func runCase(c caseSpec) (res caseResult, skip string) {
 
 	settle := func(lg *connLog, failed bool) bool {
 		if failed {
+			// a failed dial closes its connection before it returns: the broker's read ends at once
 			select {
 			case <-lg.done:
-			case <-time.After(3 * time.Second):
+			case <-time.After(300 * time.Millisecond):
 			}
 		}
 		return lg.isClosed()
@@ -503,7 +512,7 @@ func emitCase(c caseSpec, res caseResult) {
 	for i, lg := range res.logs {
 		select {
 		case <-lg.done:
-		case <-time.After(3 * time.Second):
+		case <-time.After(300 * time.Millisecond):
 		}
 		lg.mu.Lock()
 		env, journal := strings.Join(lg.env, ","), strings.Join(lg.journal, ",")
@@ -587,10 +596,19 @@ func main() {
 		}
 	}
 	_ = thorough
+	leaks := 0
 	for _, c := range cases {
+		if leaks >= 8 {
+			break // enough failed dials that left their connection open: the rest would only cost time
+		}
 		res, skip := runCase(c)
 		if skip != "" {
 			continue
+		}
+		for i := range res.results {
+			if res.results[i] != "ok" && !res.closed[i] {
+				leaks++
+			}
 		}
 		emitCase(c, res)
 		if strings.HasPrefix(res.final, "use-failed") {
